@@ -230,6 +230,10 @@ impl G {
                     if weights.contains(n) {
                         let f: Vec<f32> = t.data.iter().map(|&x| x as f32).collect();
                         OTensor::f32s(&vn(*n), &dims, &f)
+                    } else if t.shape.is_empty() && t.data[0] == i32::MAX {
+                        // a trip count beyond the i32 range: encoded as INT64 2^40, which the
+                        // loader narrows (saturating) to i32::MAX — the value the request carries
+                        OTensor::i64s(&vn(*n), &dims, &[1i64 << 40])
                     } else {
                         OTensor::i32s(&vn(*n), &dims, &t.data)
                     }
@@ -1254,6 +1258,80 @@ fn scenarios() -> Vec<(&'static str, G, Vec<T>)> {
             top,
             vec![T { shape: vec![2, 2], data: vec![1, 2, 3, 4] }, T::scalar(c)],
         ));
+    }
+
+    // s11: Loop edge cases, one per line of `Loop::run_subgraph`'s trip-count / condition handling
+    // (they tie `loopCore`, hence by `c24_loopCore_eq_loopSpec` the ONNX-text fold, to the real
+    // operator): absent trip count; trip 0; negative trip; trip beyond the i32 range; condition
+    // false at start; condition false after k; a truthy condition that is not 1; trip cuts first.
+    {
+        let mk = |trip: Option<i32>, use_cond_input: bool, less_k: Option<i32>, scan: bool| -> G {
+            let mut bconsts = vec![(403, d(2, &[1, 1]))];
+            let mut bops = Vec::new();
+            match less_k {
+                Some(k) => {
+                    bconsts.push((404, T::scalar(k)));
+                    bops.push(Op::P { k: K::Less, ins: vec![400, 404], out: 405 });
+                }
+                None => bops.push(Op::P { k: K::Id, ins: vec![401], out: 405 }),
+            }
+            bops.push(Op::P { k: K::Add, ins: vec![402, 403], out: 406 });
+            let mut bouts = vec![405, 406];
+            let mut outs = vec![6];
+            if scan {
+                bops.push(Op::P { k: K::Id, ins: vec![400], out: 407 });
+                bouts.push(407);
+                outs.push(7);
+            }
+            let body = G { inputs: vec![400, 401, 402], consts: bconsts, ops: bops, outputs: bouts };
+            let mut consts = Vec::new();
+            if let Some(t) = trip {
+                consts.push((410, T::scalar(t)));
+            }
+            G {
+                inputs: vec![1, 3],
+                consts,
+                ops: vec![Op::Lp {
+                    trip: trip.map(|_| 410),
+                    cond: if use_cond_input { Some(3) } else { None },
+                    car: vec![1],
+                    body,
+                    outs: outs.clone(),
+                }],
+                outputs: outs,
+            }
+        };
+        let x = d(2, &[10, 20]);
+        v.push(("s11a_loop_absent_trip_cond_false_after_3", mk(None, false, Some(2), true), vec![x.clone(), T::scalar(1)]));
+        v.push(("s11b_loop_trip_zero", mk(Some(0), false, Some(2), false), vec![x.clone(), T::scalar(1)]));
+        v.push(("s11c_loop_cond_false_at_start", mk(Some(3), true, None, false), vec![x.clone(), T::scalar(0)]));
+        v.push(("s11d_loop_negative_trip", mk(Some(-1), false, Some(2), false), vec![x.clone(), T::scalar(1)]));
+        v.push(("s11e_loop_trip_beyond_i32", mk(Some(i32::MAX), false, Some(2), true), vec![x.clone(), T::scalar(1)]));
+        v.push(("s11f_loop_truthy_cond_5_trip_2", mk(Some(2), true, None, true), vec![x.clone(), T::scalar(5)]));
+        v.push(("s11g_loop_trip_4_cond_false_after_2", mk(Some(4), true, Some(1), true), vec![x.clone(), T::scalar(1)]));
+        v.push(("s11h_loop_trip_2_cuts_before_cond", mk(Some(2), false, Some(3), true), vec![x, T::scalar(1)]));
+    }
+
+    // s12: a value produced by a fusable operator (Identity) is captured only TRANSITIVELY: by a
+    // branch nested two levels deep, while the intermediate branch does not mention it. The
+    // optimizer's guard must see transitive capture names (`OperatorNode::capture_names`).
+    {
+        let in_t = G { inputs: vec![], consts: vec![], ops: vec![Op::P { k: K::Mul, ins: vec![1, 500], out: 510 }], outputs: vec![510] };
+        let in_e = G { inputs: vec![], consts: vec![], ops: vec![Op::P { k: K::Sub, ins: vec![500, 1], out: 511 }], outputs: vec![511] };
+        let mid_t = G {
+            inputs: vec![],
+            consts: vec![],
+            ops: vec![Op::If { cond: 3, t: in_t, e: in_e, outs: vec![512] }, Op::P { k: K::Neg, ins: vec![512], out: 513 }],
+            outputs: vec![513],
+        };
+        let mid_e = G { inputs: vec![], consts: vec![], ops: vec![Op::P { k: K::Abs, ins: vec![1], out: 514 }], outputs: vec![514] };
+        let top = G {
+            inputs: vec![1, 2, 3],
+            consts: vec![],
+            ops: vec![Op::P { k: K::Id, ins: vec![2], out: 500 }, Op::If { cond: 3, t: mid_t, e: mid_e, outs: vec![6] }],
+            outputs: vec![6],
+        };
+        v.push(("s12_transitive_capture_of_identity_output", top, vec![d(2, &[1, 2]), d(2, &[3, 5]), T::scalar(1)]));
     }
 
     // s7: two outputs that are Identity of the same constant (optimizer: b-C01's finding).
